@@ -162,4 +162,29 @@ instance instDecSep (tr : List Line) : (l : List BlockLayout) → Decidable (Sep
     | isFalse h => isFalse (fun hh => h hh.2.2)
 instance (d : Doc) : Decidable d.Ok := by unfold Doc.Ok; infer_instance
 
+/-! ### the layout class of the *statement* (hardening pass)
+
+The statement lets blank / comment lines *optionally* precede a block, follow the labels or separate
+blocks, "with or without final newline". `Doc.Ok` above asks for two things more, because the reader
+fails without them: a separating line between two blocks and a line end after the last label line of
+an empty last block (`SepOk`). `Doc.OkStatement` is the class without these two. -/
+
+/-- only the last block may be empty (the statement's own constraint) -/
+def SepStmt : List BlockLayout → Prop
+  | [] => True
+  | [_] => True
+  | b :: b2 :: rest => b.rows ≠ [] ∧ SepStmt (b2 :: rest)
+
+def Doc.OkStatement (d : Doc) : Prop :=
+  (∀ b ∈ d.blocks, b.Ok) ∧ (∀ l ∈ d.trailing, l.Skip) ∧ SepStmt d.blocks ∧ d.lines ≠ []
+
+instance instDecSepStmt : (l : List BlockLayout) → Decidable (SepStmt l)
+  | [] => isTrue trivial
+  | [_] => isTrue trivial
+  | b :: b2 :: rest =>
+    match instDecSepStmt (b2 :: rest) with
+    | isTrue h => if hs : b.rows ≠ [] then isTrue ⟨hs, h⟩ else isFalse (fun hh => hs hh.1)
+    | isFalse h => isFalse (fun hh => h hh.2)
+instance (d : Doc) : Decidable d.OkStatement := by unfold Doc.OkStatement; infer_instance
+
 end CryoCat.C02
